@@ -80,13 +80,17 @@ class P(flow.Plan):
                 left -= k
             script += ["again"] * rng.randint(0, 2) + ["eof"]
             sel = [rng.random() < 0.5 for _ in range(len(script))]
-            traces.append(sock_rec.run_script(stream, script, sel))
-            inputs.append({"stream": list(stream), "script": script, "sel": sel})
+            # every third execution: the host write()s a command before some of its readline() calls (added after seed C17h)
+            wr = [rng.random() < 0.5 for _ in range(3 * len(script) + 8)] if i % 3 == 1 else []
+            if wr:
+                sel = [rng.random() < 0.7 for _ in range(3 * len(script) + 8)]
+            traces.append(sock_rec.run_script(stream, script, sel, writes=wr))
+            inputs.append({"stream": list(stream), "script": script, "sel": sel, "writes": wr})
         return traces, inputs
 
     def replay(self, payload):
         inp = payload["input"]
-        return [sock_rec.run_script(bytes(inp["stream"]), inp["script"], inp["sel"])], [inp]
+        return [sock_rec.run_script(bytes(inp["stream"]), inp["script"], inp["sel"], writes=inp.get("writes"))], [inp]
 
     def sample(self, t):
         return {"meta": t["meta"], "stream": t["stream"][:40], "ev": t["ev"][:6]}
